@@ -22,10 +22,12 @@ def dq(op, dr, dc, d2r=None, d2c=None, plen=1, timeout=900):
 def build(tier):
     qs = []
     rows = (1, 2, 3)
-    cols = (1, 31, 32, 33, 40, 64, 65) if tier == "thorough" else (1, 32, 33, 65)
+    cols = (1, 31, 32, 33, 40, 64, 65) if tier == "thorough" else (1, 32, 33)
     for dr in rows:
         for dc in cols:
             if tier == "quick" and dr == 2 and dc not in (33,):
+                continue
+            if tier == "quick" and dr == 3 and dc == 32:
                 continue
             qs.append(dq(1, dr, dc))
             qs.append(dq(2, dr, dc))
@@ -38,9 +40,16 @@ def build(tier):
                 qs.append(dq(5, dr, dc, d2r, dc if d2c > dc + 1 else d2c))
     qs.append(dq(6, 1, 1))
     solver = [(1, 1), (2, 2), (3, 2), (3, 3), (4, 3)] if tier == "quick" else [(1, 1), (2, 1), (2, 2), (3, 2), (3, 3), (4, 3), (4, 4), (5, 3), (5, 4)]
+    if tier == "quick":
+        qs.append(dq(1, 1, 65))
+        qs.append(dq(3, 1, 65, 2, 66))
     for p_, q_ in solver:
         for plen in (1, 9):
-            qs.append(dq(7, p_, q_, plen=plen, timeout=1800))
+            if plen == 9 and p_ * q_ > 9 and tier == "quick":
+                continue
+            q = dq(7, p_, q_, plen=plen, timeout=1800 if tier == "quick" else 5400)
+            q.mem_gb = 12 if tier == "quick" else 30
+            qs.append(q)
     meta = dict(
         units=["binary_matrix/of_matrix_dense.c", "binary_matrix/of_hamming_weight.c", "ml_decoding/of_ml_tool.c"],
         functions_encoded=["of_mod2dense_{allocate,free,get,set,flip,clear,copy,copyrows,copycols,xor_rows,row_weight,col_weight,row_is_empty}",
